@@ -9,7 +9,7 @@ SYSTEMS = {1: "NPM", 2: "Maven", 3: "PyPI"}   # values of the API's System enum;
 def histories(h, tier):
     # each step: (package, version, deleted, number of requirements)
     if tier == "quick":
-        steps = [(0, 0, 0, 1), (0, 1, 0, 0), (0, 0, 0, 2), (1, 0, 1, 0), (0, 2, 0, 1)]
+        steps = [(0, 0, 0, 1), (0, 1, 0, 0), (1, 0, 1, 0), (0, 2, 0, 2)]
     else:
         steps = [(p, v, d, n) for p in (0, 1) for v in (0, 1, 2, 3) for d in (0, 1) for n in (0, 1, 2)]
     return itertools.product(steps, repeat=h)
@@ -18,7 +18,7 @@ def histories(h, tier):
 def run(tier):
     jobs = []
     base = dict(unwind=80, timeout_s=900, summarise=SUM, max_witnesses=1, witness_every=500, panic_is_violation=True)
-    hs = [1, 2, 3] if tier == "quick" else [1, 2, 3]
+    hs = [1, 2] if tier == "quick" else [1, 2, 3]
     for sys in SYSTEMS:
         for h in hs:
             hist = list(histories(h, tier))
